@@ -1078,7 +1078,10 @@ Proof.
                      OAdvance 10; ORun] w_nobeh 0)).
   specialize (H s 0%nat (0, w_sbA') w_nobeh 0%nat).
   assert (Hc : is_head s (c_parent (getc s 0)) 0 = false) by (vm_compute; reflexivity).
-  specialize (H (or_introl Hc)). vm_compute in H. discriminate.
+  specialize (H (or_introl Hc)).
+  assert (E : length (snd (fst (poll_cb false s 0 (0, w_sbA') w_nobeh 0))) = 1%nat)
+    by (vm_compute; reflexivity).
+  rewrite H in E. cbn [fst snd length] in E. discriminate.
 Qed.
 
 (* ------------------------------------------------------------------ *)
